@@ -1828,7 +1828,12 @@ public:
   template<class T>
   static std::vector<T> vectorUnion(const std::vector<T>& vec1, const std::vector<T>& vec2)
   {
-    std::vector<T> unionEl = vec1;
+    std::vector<T> unionEl;
+    for (auto it : vec1)
+    {
+      if (!contains(unionEl, it))
+        unionEl.push_back(it);
+    }
     for (auto it : vec2)
     {
       if (!contains(unionEl, it))
